@@ -586,6 +586,23 @@ def run_idle_counter(prog):
     for f, bi, si in consumers:
         res.fn(f)
         dep = {f_ for (a, f_) in dependence_slice(f, bi)[0] if a == KAN}
+        # the comparison happens in a closure that runs once per entry of a waiting list (`self.waiting_for_idle.retain(|w| ..)`):
+        # it only happens while that list has entries
+        st0 = f.stmts(bi)[si] if isinstance(si, int) else None
+        if st0 is not None and st0["k"] == "assign" and not proj(st0["p"]):
+            l0 = st0["p"]["l"]
+            refs = {l0} | {s2["p"]["l"] for _b, _s, s2 in f.all_rvalues() if s2["rv"]["k"] in ("ref", "use") and not proj(s2["p"])
+                           and is_place(s2["rv"].get("p") or s2["rv"].get("a")) and not proj(s2["rv"].get("p") or s2["rv"].get("a"))
+                           and (s2["rv"].get("p") or s2["rv"].get("a"))["l"] == l0}
+            clos = {s2["p"]["l"] for _b, _s, s2 in f.all_rvalues() if s2["rv"]["k"] == "agg" and "clo" in s2["rv"] and not proj(s2["p"])
+                    and any(is_place(o) and not proj(o) and o["l"] in refs for o in s2["rv"]["ops"])}
+            from rules.r_doaction import receiver_fields
+            for cb, ct in f.calls():
+                if any(is_place(a) and not proj(a) and (a["l"] in clos or ((f.single_def(a["l"]) or (0, 0, "", {}))[2] == "assign"
+                       and is_place((f.single_def(a["l"])[3]).get("a")) and (f.single_def(a["l"])[3]).get("a", {}).get("l") in clos)) for a in ct["args"][1:]):
+                    fl = receiver_fields(f, ct)
+                    if fl and fl[-1] in GUARDS:
+                        dep.add(fl[-1])
         guards = sorted(x for x in dep if x in GUARDS)
         missing = [x for x in guards if x not in inc_fields]
         key = "consumer/%s" % f.norm.split("::")[-1]
